@@ -230,5 +230,5 @@ def campaign(col, tier, seed, shard, nshards):
             unknown = col.record(case, run_case(case), distinct=True, sample=False)
             if unknown:
                 col.add_violation(case, unknown)
-    n = 3200 if tier == "quick" else 100000
+    n = 3200 if tier == "quick" else 600000
     hyp_campaign(col, strategy(), run_case, max(n // nshards, 100), seed * 100 + shard)
